@@ -32,7 +32,7 @@ def run(ctx):
     saved = ctx.deadline
     import time
     def slot(k):
-        ctx.deadline = time.time() + sub
+        ctx.deadline = ctx.clock() + sub
     slot(0); w_alg.drive_merge(ctx, ctx.tier)
     slot(1); w_alg.drive_embed(ctx, ctx.tier)
     slot(2); w_alg.drive_mask(ctx, ctx.tier, dup=True, include_posonly=True)
